@@ -51,11 +51,22 @@ def boundaries():
 def plan(tier, seed):
     lo, hi = RANGE[tier]
     maxes = list(range(lo, hi + 1)) + [b for b in boundaries() if b > hi]
-    return [{'maxes': maxes[i::16]} for i in range(16)]
+    specs = [{'maxes': maxes[i::16]} for i in range(16)]
+    # the real provider thread writing to a real socket while the application goes on (vf/c06wire.py)
+    for k in range(4 if tier == 'quick' else 24):
+        specs.append({'wire': 'release', 'round': k})
+    for k in range(3 if tier == 'quick' else 24):
+        specs.append({'wire': 'threads', 'round': k})
+    return specs
 
 
 def run_shard(spec, tier, seed):
     res = Result()
+    if spec.get('wire'):
+        from . import c06wire
+        (c06wire.release_case if spec['wire'] == 'release' else c06wire.threads_case)(
+            res, {'wire': spec['wire'], 'round': spec['round'], 'seed': seed})
+        return res
     tmpdir = tempfile.mkdtemp(prefix='vf-c06-')
     try:
         for mx in spec['maxes']:
@@ -81,7 +92,7 @@ def run_shard(spec, tier, seed):
                                    'source': src, 'seed': seed}, tmpdir)
             # all lengths with one class, all four sources (bytes-vs-file equivalence)
             for n in lengths:
-                for src in SOURCES + ['shortreads']:
+                for src in SOURCES + ['shortreads', 'bytesio-offset', 'gzip']:
                     run_case(res, {'cls': 'CStoreRQMessage', 'max': mx, 'len': n, 'ctx': 1,
                                    'source': src, 'seed': seed}, tmpdir)
     finally:
@@ -92,6 +103,10 @@ def run_shard(spec, tier, seed):
 
 def replay(case):
     res = Result()
+    if case.get('wire'):
+        from . import c06wire
+        (c06wire.release_case if case['wire'] == 'release' else c06wire.threads_case)(res, case)
+        return res
     tmpdir = tempfile.mkdtemp(prefix='vf-c06-')
     try:
         run_case(res, case, tmpdir)
@@ -111,6 +126,19 @@ def make_source(kind, data, tmpdir):
         return data
     if kind == 'bytesio':
         return io.BytesIO(data)
+    if kind == 'bytesio-offset':
+        # an in-memory stream positioned behind a header: transmission starts at the position
+        fp = io.BytesIO(b'\0' * 128 + b'DICM' + b'meta-header-bytes' + data)
+        fp.seek(128 + 4 + 17)
+        return fp
+    if kind == 'gzip':
+        # a seekable file object whose descriptor belongs to another (compressed) file than the
+        # stream it delivers
+        import gzip
+        path = os.path.join(tmpdir, 'ds-%d.bin.gz' % len(data))
+        with gzip.open(path, 'wb') as f:
+            f.write(data)
+        return gzip.open(path, 'rb')
     if kind == 'shortreads':
         # a stream whose read(n) may return less than n before the end of the data
         from .c10 import ShortReads
